@@ -3,7 +3,7 @@
    Z/N/positive/nat stay Coq datatypes.  No Extract Constant / Extract Inductive of our own. *)
 Require Extraction.
 Require Import ExtrOcamlBasic.
-From Verif Require Import Lib.Bytes Model.IPRange Model.Path Model.Fs Model.Session Model.IsoRead Model.Crypt Model.Listener Model.Timeout Model.Detect Model.Config Model.IsoBuild Model.Tools.
+From Verif Require Import Lib.Bytes Model.IPRange Model.Path Model.Fs Model.Session Model.IsoRead Model.Crypt Model.Listener Model.Timeout Model.Detect Model.Config Model.IsoBuild Model.Tools Model.Sfo.
 
 Extraction Language OCaml.
 Extraction "model.ml"
@@ -17,5 +17,6 @@ Extraction "model.ml"
   Config.raw_value
   IsoBuild.build_image
   Tools.decrypt_output Tools.make_iso_output Tools.after_tool
+  Sfo.sfo_field
   Crypt.new_encrypted Crypt.crypt_run Crypt.crypt_read_at
   Session.serve_all Session.step Session.parse_request Session.held.
